@@ -35,6 +35,41 @@ def jd2dt_rounding(p):
                 require(isinstance(e, ast.Name), "seconds component is not bound to a name", n)
                 sec = e.id
     require(sec is not None, "julianDateToDatetime does not unpack the six calendar components", fn.node)
+    # a local that merely names an unrounded intermediate (`total = h * 3600 + m * 60 + s`, rounded later) is put back at
+    # its uses, so that the chain from the seconds component to the constructor is one expression
+    import copy
+    import types
+
+    node = copy.deepcopy(fn.node)
+    for _round in range(4):
+        cands = {}
+        for n in walk_no_nested(node):
+            if isinstance(n, ast.Assign) and len(n.targets) == 1 and isinstance(n.targets[0], ast.Name):
+                cands.setdefault(n.targets[0].id, []).append(n)
+        pick = None
+        for nm_, asgs in cands.items():
+            if len(asgs) != 1 or nm_ == sec:
+                continue
+            v = asgs[0].value
+            if any(isinstance(x, ast.Name) and x.id == sec for x in ast.walk(v)) and not any(isinstance(c, ast.Call) and call_name(c) in ROUND_FUNCS | TRUNC_FUNCS - {"int"} for c in ast.walk(v)) and not any(isinstance(c, ast.Call) and call_name(c) == "int" for c in ast.walk(v)):
+                pick = (nm_, asgs[0])
+                break
+        if pick is None:
+            break
+        nm_, asg = pick
+
+        class S(ast.NodeTransformer):
+            def visit_Name(self, n):
+                return copy.deepcopy(asg.value) if n.id == nm_ and isinstance(n.ctx, ast.Load) else n
+
+            def visit_Assign(self, n):
+                if n is asg:
+                    return None
+                return self.generic_visit(n)
+
+        node = S().visit(node)
+        ast.fix_missing_locations(node)
+    fn = types.SimpleNamespace(node=node, qualname=fn.qualname, name=fn.name, loc=fn.loc, file=fn.file, lineno=fn.lineno, module=fn.module, params=fn.params)
     rets = [n for n in walk_no_nested(fn.node) if isinstance(n, ast.Return) and n.value is not None]
     require(rets, "julianDateToDatetime has no return", fn.node)
     pm = parents_map(fn.node)
@@ -144,6 +179,11 @@ def rule_r1(chk, p, t):
 
 def _field_order(call, objname=None):
     """Check getJulianDate(<o>.year, <o>.month, ...): returns (ok, detail)."""
+    if len(call.args) == 1 and not call.keywords and isinstance(call.args[0], ast.Starred):
+        # `*d.timetuple()[:6]`: the standard library's (year, month, day, hour, minute, second) of one datetime
+        v = call.args[0].value
+        if isinstance(v, ast.Subscript) and isinstance(v.slice, ast.Slice) and v.slice.lower is None and v.slice.step is None and isinstance(v.slice.upper, ast.Constant) and v.slice.upper.value == 6 and isinstance(v.value, ast.Call) and isinstance(v.value.func, ast.Attribute) and v.value.func.attr == "timetuple" and not v.value.args:
+            return True, unparse(v.value.func.value)
     if len(call.args) != 6 or call.keywords:
         raise Undecided("getJulianDate is not called with six positional calendar fields", call)
     base = None
@@ -192,7 +232,7 @@ def rule_r2(chk, p, t):
             r.ok(fn.qualname + ":fields", f"six fields of `{detail}` in order", fn.loc(calls[0]))
             if fn.name == "getTargetJulianDate":
                 # base object = julianDateToDatetime(start) + jump_delta
-                base = calls[0].args[0].value
+                base = ast.parse(detail, mode="eval").body  # the object the six fields are read from
                 e = inline_locals(fn, base)
                 good = (
                     isinstance(e, ast.BinOp)
